@@ -215,6 +215,9 @@ def _scenarios():
     for fn in ("folder", "imagefolder"):
         for fmt, sfmt in (("raw", "zip"), ("zip", "raw"), ("zips", "raw")):
             out.append({"fn": fn, "fmt": fmt, "rel": "sub/ds", "parent": True, "sibling": sfmt})
+        # related names in one local parent folder ("ds" next to "ds.v2"): temp / marker names derived from the destination name must not reach the sibling
+        for fmt, sfmt in (("raw", "raw"), ("zip", "zips")):
+            out.append({"fn": fn, "fmt": fmt, "rel": "sub/ds", "parent": True, "sibling": sfmt, "sib_suffix": ".v2"})
     return out
 
 
@@ -359,7 +362,7 @@ def run_case(run, spec):
         sib = None
         if scn.get("sibling"):
             # a sibling split ("<rel>_other") of the same local root was copied completely before: it must stay complete and untouched
-            sib_scn = dict(scn, rel=scn["rel"] + "_other", fmt=scn["sibling"], sibling=None)
+            sib_scn = dict(scn, rel=scn["rel"] + scn.get("sib_suffix", "_other"), fmt=scn["sibling"], sibling=None)
             sib_expected = _make_source(root, sib_scn)
             r0 = _call_in_child(root, sib_scn, workers=0)
             sib_dst = _paths(root, sib_scn)[3]
